@@ -74,10 +74,26 @@ func reachableWithoutWriter(p *Program, fn *ssa.Function, target ssa.Instruction
 			if f == nil || f.Kind != "nil" {
 				return false
 			}
-			for _, call := range calls {
-				if loadIsResultOf(f.V, call) {
-					return true
+			fromWriter := func(v ssa.Value) bool {
+				for _, call := range calls {
+					if loadIsResultOf(v, call) {
+						return true
+					}
 				}
+				return false
+			}
+			if fromWriter(f.V) {
+				return true
+			}
+			// one check after a switch whose every arm performed its write into the same error variable: the merged
+			// value is nil only if the write that ran succeeded
+			if ph, ok := f.V.(*ssa.Phi); ok && len(ph.Edges) > 0 {
+				for _, e := range ph.Edges {
+					if !fromWriter(e) {
+						return false
+					}
+				}
+				return true
 			}
 			return false
 		}}
